@@ -59,6 +59,15 @@ func (w *World) flowSinks(src ssa.Value) []flowSink {
 				}
 			case *ssa.Phi, *ssa.ChangeType, *ssa.MakeInterface, *ssa.Convert, *ssa.Slice, *ssa.ChangeInterface, *ssa.TypeAssert:
 				visit(x.(ssa.Value))
+			case *ssa.IndexAddr:
+				// an element read out of a slice the value was put into
+				if x.X == v && x.Referrers() != nil {
+					for _, ir := range *x.Referrers() {
+						if ld, ok := ir.(*ssa.UnOp); ok && ld.Op == token.MUL {
+							visit(ld)
+						}
+					}
+				}
 			case *ssa.Store:
 				if x.Val != v {
 					continue
@@ -69,6 +78,20 @@ func (w *World) flowSinks(src ssa.Value) []flowSink {
 						for _, ar := range *a.Referrers() {
 							if ld, ok := ar.(*ssa.UnOp); ok && ld.Op == token.MUL {
 								visit(ld)
+							}
+							// the cell is captured by a closure: its loads there
+							if mc, ok := ar.(*ssa.MakeClosure); ok {
+								if cf, ok := mc.Fn.(*ssa.Function); ok {
+									for bi, b := range mc.Bindings {
+										if b == ssa.Value(a) && bi < len(cf.FreeVars) && cf.FreeVars[bi].Referrers() != nil {
+											for _, fr := range *cf.FreeVars[bi].Referrers() {
+												if ld, ok := fr.(*ssa.UnOp); ok && ld.Op == token.MUL {
+													visit(ld)
+												}
+											}
+										}
+									}
+								}
 							}
 						}
 					}
@@ -135,6 +158,10 @@ func (w *World) flowSinks(src ssa.Value) []flowSink {
 			case ssa.CallInstruction:
 				c := x.Common()
 				name := calleeName(c)
+				// the value is the receiver of an interface method call (w.Close())
+				if c.IsInvoke() && c.Value == v {
+					sinks = append(sinks, flowSink{Kind: "recv", Name: "invoke:" + c.Method.Name(), Pos: x})
+				}
 				for i, a := range c.Args {
 					if a == v {
 						sinks = append(sinks, flowSink{Kind: "arg", Name: name, Idx: i, Pos: x})
